@@ -135,7 +135,7 @@ def g_typecheck(ctx):
         rr.instances, rr.samples, rr.counts = d["instances"], d["samples"], d["counts"]
         rr.violations = [Violation(v["rule"], v["key"], v["where"], v["msg"], v["detail"]) for v in d["violations"]]
     else:
-        rr = rules_x.rule_typecheck(ctx.programs(), full=full)
+        rr = rules_x.rule_typecheck(ctx.programs() + ctx.programs(("tconly",)), full=full)
         from .core import write_json
         write_json(cache, {"instances": rr.instances, "samples": rr.samples, "counts": rr.counts, "violations": [v.to_json() for v in rr.violations]})
     return [rr] + ctx.per_model([], lambda p: [])
